@@ -45,7 +45,7 @@ from dulwich.repo import Repo
 _TPL = None
 
 
-def _server(refs):
+def _server(refs, layout="loose"):
     """a bare repository on disk holding A and B (MemoryObjectStore.add_thin_pack lacks the
     max_input_size parameter that ReceivePackHandler passes)"""
     global _TPL
@@ -59,8 +59,15 @@ def _server(refs):
     shutil.copytree(os.path.join(_TPL, "t.git"), os.path.join(d, "r.git"))
     r = Repo(os.path.join(d, "r.git"))
     r._verif_tmp = d
+    if layout == "stale-packed":
+        # every ref first holds another value, is packed, and is then moved on: a loose file over an older packed entry
+        for k, v in refs:
+            r.refs[R(k)] = IDS["B" if v == "A" else "A"]
+        r.refs.pack_refs(all=True)
     for k, v in refs:
         r.refs[R(k)] = IDS[v]
+    if layout == "packed":
+        r.refs.pack_refs(all=True)
     return r
 
 
@@ -87,7 +94,7 @@ def _classify(msg):
 def push(req):
     """refs: [[name hex, 'A'|'B']]; cmds: [[old, new, name hex]] with old/new in A,B,C,D,Z;
     C is in the pack that is sent, D nowhere."""
-    r = _server(req["refs"])
+    r = _server(req["refs"], req.get("layout", "loose"))
     caps = [b"report-status", b"delete-refs"] + ([b"atomic"] if req["atomic"] else []) + ([b"side-band-64k"] if req.get("sideband") else [])
     cmds = req["cmds"]
     inp = BytesIO()
@@ -170,7 +177,7 @@ def push(req):
 def local_push(req):
     """the in-process path: LocalGitClient.send_pack between two MemoryRepo-like disk repos is heavier;
     here the target is a MemoryRepo opened through a tiny subclass"""
-    target = _server(req["refs"])
+    target = _server(req["refs"], req.get("layout", "loose"))
     source = MemoryRepo()
     source.object_store.add_objects([(_T, None), (_A, None), (_B, None), (_C, None)])
 
